@@ -7,7 +7,7 @@
    The main statement holds for every class and every input (no domain restriction since the
    empty-string alias was repaired in /repo 7108448). *)
 From Coq Require Import List String Ascii ZArith Bool.
-From Verif Require Import Regex PyK PyK_strat PyK_alias FieldDecl FieldDeclProofs KeyModel KeyImpl KeyProofs KeyDecl KeyNested.
+From Verif Require Import Regex PyK PyK_strat PyK_alias FieldDecl FieldDeclProofs KeyModel KeyImpl KeyProofs KeyDecl KeyCfg KeyNested.
 From VerifGen Require Import K4 K5.
 Import ListNotations.
 Open Scope string_scope.
@@ -133,47 +133,30 @@ Theorem C09_nearest_config : forall ls l, nearest_cfg (ls ++ [l]) = step_cfg (ne
 Proof. exact nearest_config. Qed.
 Print Assumptions C09_nearest_config.
 
-(* CodeBuilder.get_config (modelled by builder_cfg, compared with the real classes on every run) gives
-   the same options -- unless a plain (non-BaseConfig) Config derives from another Config *)
-Definition C09_builder_config_full : Prop := forall ls, builder_cfg ls = nearest_cfg ls.
+(* (T) CodeBuilder.get_config, translated from /repo (VerifGen.K4.get_config), run on the class objects of a
+   hierarchy r (nearest class first; BaseConfig subclasses, plain classes, Configs deriving from the Config
+   their class would otherwise see) returns a class whose options are those of Python's attribute lookup *)
+Theorem C09_get_config : forall r,
+  exists c, get_config (cls_obj r) base_config KNone (KBool true) = Ok c
+            /\ cfg_of_class c = Some (nearest_cfg (rev r)).
+Proof. exact get_config_spec. Qed.
+Print Assumptions C09_get_config.
 
-Theorem C09_builder_config_partial : forall ls, no_plain_inherit ls = true -> builder_cfg ls = nearest_cfg ls.
-Proof. exact builder_cfg_nearest. Qed.
-Print Assumptions C09_builder_config_partial.
-
-Theorem C09_builder_config_refuted : ~ C09_builder_config_full.
-Proof.
-  intro H. specialize (H w_plain). destruct plain_inherit_refuted as [_ [H1 [H2 _]]].
-  rewrite H1, H2 in H. discriminate H.
-Qed.
-Print Assumptions C09_builder_config_refuted.
+Theorem C09_builder_config : forall ls, impl_cfg ls = Ok (nearest_cfg ls).
+Proof. exact impl_cfg_nearest. Qed.
+Print Assumptions C09_builder_config.
 
 (* every field name occurs once among the collected declarations (re-declaration replaces in place) *)
 Theorem C09_fields_unique : forall ls, NoDup (map dname (collect ls)).
 Proof. exact collect_nodup. Qed.
 Print Assumptions C09_fields_unique.
 
-(* generated code (working with the Config get_config returns) = KEYMODEL for that Config *)
+(* the generated code of a class given by its hierarchy -- the Config through the translated get_config, then
+   the translated alias / lookup / allowed-key kernels -- is KEYMODEL of the class the hierarchy denotes *)
 Theorem C09_keys_hier : forall ls discr d,
-  impl_from_dict (builder_class_of ls discr) d = Ok (keymodel (builder_class_of ls discr) d).
-Proof. exact impl_eq_keymodel_hier. Qed.
+  impl_from_hier ls discr d = Ok (keymodel (class_of ls discr) d).
+Proof. exact impl_from_hier_keymodel. Qed.
 Print Assumptions C09_keys_hier.
-
-(* ... = KEYMODEL for the Config Python's attribute lookup gives *)
-Definition C09_keys_hier_py_full : Prop := forall ls discr d,
-  impl_from_dict (builder_class_of ls discr) d = Ok (keymodel (class_of ls discr) d).
-
-Theorem C09_keys_hier_py_partial : forall ls discr d, no_plain_inherit ls = true ->
-  impl_from_dict (builder_class_of ls discr) d = Ok (keymodel (class_of ls discr) d).
-Proof. exact impl_eq_keymodel_hier_py. Qed.
-Print Assumptions C09_keys_hier_py_partial.
-
-Theorem C09_keys_hier_py_refuted : ~ C09_keys_hier_py_full.
-Proof.
-  intro H. specialize (H w_plain None [(KeyS "ax", 1%Z); (KeyS "q", 2%Z)]).
-  destruct plain_inherit_refuted as [_ [_ [_ [H1 H2]]]]. rewrite H1, H2 in H. discriminate H.
-Qed.
-Print Assumptions C09_keys_hier_py_refuted.
 
 (* ---- the alias data the generated code uses comes from CodeBuilder.dataclass_fields (translated as
    VerifGen.K5, tied to FieldDecl.ref_fields by C10): run on the encoding of the hierarchy, followed by
@@ -199,8 +182,8 @@ Theorem C09_alias_from_sources :
          /\ get_field_alias (KStr (f_name f)) md
               (KBool (match f_ann f with Some _ => true | None => false end))
               (match f_ann f with Some a => KTuple (map enc_ann a) | None => KNone end)
-              (enc_aliases (c_aliases (builder_class_of (ls ++ [l]) discr)))
-            = Ok (enc_ostr (alias_of (builder_class_of (ls ++ [l]) discr) f)).
+              (enc_aliases (c_aliases (class_of (ls ++ [l]) discr)))
+            = Ok (enc_ostr (alias_of (class_of (ls ++ [l]) discr) f)).
 Proof. exact alias_from_sources. Qed.
 Print Assumptions C09_alias_from_sources.
 
@@ -261,9 +244,19 @@ Example C09_nonvacuous_hier :
              mkL [] None] in
   effective ls = [mkF "x" (Some "x_v2") None false]
   /\ keymodel (class_of ls None) [(KeyS "x_v2", 1%Z)] = OInst [("x", Some (KeyS "x_v2", 1%Z))]
-  /\ nearest_cfg ls = mkCfg [] true true /\ builder_cfg ls = nearest_cfg ls
+  /\ nearest_cfg ls = mkCfg [] true true /\ impl_cfg ls = Ok (mkCfg [] true true)
   /\ keymodel (class_of ls None) [(KeyS "x", 1%Z)] = OInst [("x", Some (KeyS "x", 1%Z))]
   /\ keymodel (class_of ls None) [(KeyS "x_v1", 1%Z); (KeyS "x_v2", 2%Z); (KeyS "y", 3%Z)] = OExtra [KeyS "x_v1"; KeyS "y"].
+Proof. repeat split; vm_compute; reflexivity. Qed.
+
+(* a plain Config deriving from a plain Config keeps what it inherits (repaired in /repo b122a57; before, the
+   parent's aliases and forbid_extra_keys were lost): A.Config{aliases x->ax, forbid}, K.Config(A.Config){allow} *)
+Example C09_nonvacuous_plain_config :
+  let ls := [mkL [(mkF "x" None None true, true)] (Some (mkCD false true (Some [("x", "ax")]) None (Some true)));
+             mkL [] (Some (mkCD true true None (Some true) None))] in
+  impl_cfg ls = Ok (mkCfg [("x", "ax")] true true)
+  /\ impl_from_hier ls None [(KeyS "ax", 1%Z); (KeyS "q", 2%Z)] = Ok (OExtra [KeyS "q"])
+  /\ impl_from_hier ls None [(KeyS "x", 1%Z)] = Ok (OInst [("x", Some (KeyS "x", 1%Z))]).
 Proof. repeat split; vm_compute; reflexivity. Qed.
 
 (* ---- dataclass-typed fields: the value found under the outer key is decoded by the inner class with the
